@@ -551,8 +551,16 @@ class ExprMixin(object):
         if isinstance(op, (ast.In, ast.NotIn)):
             res = self.contains(r, l, st)
             return z3.Not(res) if isinstance(op, ast.NotIn) else res
+        if (isinstance(l, Opt) or isinstance(r, Opt)) and isinstance(op, (ast.Eq, ast.NotEq)):
+            # None == x is False for every value x that is not None
+            if isinstance(l, Opt) and isinstance(r, Opt):
+                res = z3.Or(z3.And(l.isnone, r.isnone), z3.And(z3.Not(l.isnone), z3.Not(r.isnone), self.compare(ast.Eq(), l.val, r.val, st)))
+            else:
+                o_, x_ = (l, r) if isinstance(l, Opt) else (r, l)
+                res = z3.And(z3.Not(o_.isnone), self.compare(ast.Eq(), o_.val, x_, st))
+            return z3.Not(res) if isinstance(op, ast.NotEq) else res
         if isinstance(l, Opt) or isinstance(r, Opt):
-            raise Unsupported('comparison of optional value')
+            raise Unsupported('ordering comparison of an optional value')
         if isinstance(l, PyStr) and isinstance(r, PyStr):
             lz, rz = z3.StringVal(l.s), z3.StringVal(r.s)
         elif isinstance(l, Tup) and isinstance(r, Tup) and isinstance(op, (ast.Eq, ast.NotEq)):
@@ -636,6 +644,12 @@ class ExprMixin(object):
 
     def getattr(self, recv, name, st, node=None):
         r = self.deref(recv, st)
+        if isinstance(r, Opt):
+            # attribute of a value that may be None: AttributeError on None, the attribute of the value otherwise
+            s_none = st.copy(); s_none.pc.append(r.isnone); self.raise_exc('AttributeError', s_none)
+            st.pc.append(z3.Not(r.isnone))
+            return self.getattr(r.val, name, st, node)
+        if isinstance(r, NoneV): return self.raise_exc('AttributeError', st)
         if isinstance(r, ExcV) and name == 'message':
             return [(Sc(fresh(StrS, 'excmsg'), 'str'), st)]
         if isinstance(r, ExcV) and name == 'args':
@@ -660,7 +674,13 @@ class ExprMixin(object):
         if isinstance(r, Rec):
             if name in r.fields: return [(r.fields[name], st)]
             fi = r.module.find_method(r.cls, name)
-            if fi is None: raise AttributeErrorSite(r.cls, name)
+            if fi is None:
+                # class-level constant (NAME = literal in the class body)
+                cd = getattr(r.module, 'classes', {}).get(r.cls)
+                for b_ in (cd.body if cd is not None else []):
+                    if isinstance(b_, ast.Assign) and len(b_.targets) == 1 and isinstance(b_.targets[0], ast.Name) and b_.targets[0].id == name and isinstance(b_.value, ast.Constant):
+                        return [(self.ev1(b_.value, st), st)]
+                raise AttributeErrorSite(r.cls, name)
             if fi.is_property: return self.call_function(fi, [recv], {}, st, self_cls=(r.module, r.cls), node=node)
             return [(BoundMethod(recv, name), st)]
         if isinstance(r, Obj) and getattr(self.reg.classes.get(r.cls), 'external', False) and self.reg.field_type(r.cls, name) is None:
@@ -668,6 +688,12 @@ class ExprMixin(object):
         if isinstance(r, Obj):
             self.assume_invariant(r, st)
             fty = self.reg.field_type(r.cls, name)
+            if fty is not None and name in getattr(self.reg.classes.get(r.cls), 'optional_attrs', ()) and fty.kind == 'Opt':
+                # an attribute that only some instances have (two tuple types behind one sidecar class): AttributeError when absent
+                ov = self.read_field(r, name, fty, st)
+                s_abs = st.copy(); s_abs.pc.append(ov.isnone); self.raise_exc('AttributeError', s_abs)
+                st.pc.append(z3.Not(ov.isnone))
+                return [(ov.val, st)]
             if fty is not None:
                 return [(self.read_field(r, name, fty, st), st)]
             fi = self.find_method_of(r.cls, name)
@@ -817,7 +843,8 @@ class ExprMixin(object):
         return self.obl(kind, st, goal)
 
     def raise_exc(self, cls, st, args=()):
-        self._raises.append(Outcome('raise', st, ExcV(cls, args)))
+        e = ExcV(cls, args); e.lineno = getattr(self, '_cur_lineno', None)
+        self._raises.append(Outcome('raise', st, e))
         return []
 
     def ev_ListComp(self, n, st):
@@ -828,7 +855,27 @@ class ExprMixin(object):
         else:
             src = self.deref(self.ev1(g.iter, st), st)
         if isinstance(src, (Tup, PyList)):
-            if g.ifs: raise Unsupported('filtered comprehension over a concrete list')
+            if g.ifs:
+                # concrete list, symbolic filter: one path per feasible subset (the lists met here have two or three entries)
+                if len(src.items) > 4: raise Unsupported('filtered comprehension over a long concrete list')
+                paths = [([], st)]
+                for it in src.items:
+                    nxt = []
+                    for items, s in paths:
+                        s1 = s.copy(); self.bind(g.target, it, s1)
+                        rc = self.ev(g.ifs[0], s1)
+                        if len(rc) != 1: raise Unsupported('forking comprehension filter')
+                        t = self.truth(rc[0][0], rc[0][1]); s1 = rc[0][1]
+                        for keep in (True, False):
+                            s2 = s1.copy(); s2.pc.append(t if keep else z3.Not(t))
+                            if not self.feasible(s2): continue
+                            if keep:
+                                re_ = self.ev(n.elt, s2)
+                                if len(re_) != 1: raise Unsupported('forking comprehension')
+                                nxt.append((items + [re_[0][0]], re_[0][1]))
+                            else: nxt.append((items, s2))
+                    paths = nxt
+                return [(s.new_cell(PyList(items)), s) for items, s in paths]
             items, s = [], st
             for it in src.items:
                 s = s.copy(); self.bind(g.target, it, s)
@@ -878,6 +925,26 @@ class ExprMixin(object):
         raise ComprehensionOverSymbolic(n, src)
 
     def ev_Call(self, n, st):
+        if isinstance(n.func, ast.Name) and n.func.id == '__logging_arguments__':
+            # arguments of a dropped logging call: evaluated for their exceptional exits, values discarded; an argument the
+            # executor cannot interpret is skipped (noted) -- no worse than dropping the statement
+            def for_exceptions(a, states):
+                nxt = []
+                for s_ in states:
+                    keep_r = len(self._raises)
+                    try: nxt.extend(s2 for _, s2 in self.ev(a, s_.copy()))
+                    except (Unsupported, AttributeErrorSite, NameErrorSite, KeyError, AssertionError, z3.Z3Exception) as e:
+                        del self._raises[keep_r:]
+                        # not interpretable as a whole: its sub-expressions one by one (left to right), each for its exceptional exits
+                        kids = [k for k in ast.iter_child_nodes(a) if isinstance(k, ast.expr) and not isinstance(k, (ast.Constant, ast.Name))]
+                        if not kids: self.notes.append('part of a logging argument at line %s not evaluated: %s' % (getattr(n, 'lineno', '?'), str(e)[:80]))
+                        cur = [s_]
+                        for k in kids: cur = for_exceptions(k, cur)
+                        nxt.extend(cur)
+                return nxt
+            states = [st]
+            for a in n.args: states = for_exceptions(a, states)
+            return [(NONE, s_) for s_ in states]
         return self.call_node(n, st)
 
     def ev_Starred(self, n, st):
@@ -934,7 +1001,7 @@ def TupleSort(sorts):
 def _tuple_term(zs):
     return TupleSort([z.sort() for z in zs]).mk(*zs)
 
-_BUILTINS = set('min max sum reversed round float int len range print sorted tuple list set dict str min max abs enumerate zip hasattr isinstance super StringIO open bool round sum Exception ValueError KeyError TypeError IndexError NotImplementedError AttributeError ZeroDivisionError NameError object property'.split())
+_BUILTINS = set('getattr min max sum reversed round float int len range print sorted tuple list set dict str min max abs enumerate zip hasattr isinstance super StringIO open bool round sum Exception ValueError KeyError TypeError IndexError NotImplementedError AttributeError ZeroDivisionError NameError object property'.split())
 
 
 # =====================================================================================
@@ -953,6 +1020,7 @@ class StmtMixin(object):
         return outs
 
     def stmt(self, s, st):
+        if self.call_depth == 0 and hasattr(s, 'lineno'): self._cur_lineno = s.lineno
         m = getattr(self, 'st_' + type(s).__name__, None)
         if m is None: raise Unsupported('statement %s at %s:%d' % (type(s).__name__, self.fi.file, s.lineno))
         saved = self._raises; self._raises = []
@@ -1028,6 +1096,11 @@ class StmtMixin(object):
             if isinstance(r, Rec):
                 r2 = Rec(r.cls, r.module, r.fields); r2.fields[target.attr] = v
                 st.cells[recv.id] = r2; return
+            if isinstance(r, Closure) and target.attr in ('deriv', 'deriv2'):
+                # f.deriv = g on a local function: the callable now offers that derivative function (core.has_deriv / dfn)
+                f_ = self.as_fn(recv, st); g_ = self.as_fn(v, st)
+                st.pc += [has_deriv(f_), dfn(f_) == g_] if target.attr == 'deriv' else [has_deriv2(f_), d2fn(f_) == g_]
+                return
             if isinstance(r, Closure) or isinstance(r, FuncV):
                 raise Unsupported('attribute store on function object')
             raise Unsupported('attribute store on %r' % (r,))
@@ -1576,6 +1649,9 @@ class CallMixin(object):
             self._raises.append(Outcome('raise', s_bad, ExcV('ValueError', origin=name)))
             st = st.copy(); st.pc.append(ok)
             return [(Sc((str_to_real if name == 'float' else str_to_int)(a.z), name), st)]
+        if name == 'float' and isinstance(d[0], PyStr) and d[0].s.strip().lower() in ('-inf', 'inf', '+inf', '-infinity', 'infinity'):
+            self.reg.assume('float("%s") is an unspecified real constant (nothing is derived from its value; A1 has no infinities)' % d[0].s)
+            return [(Sc(z3.Const('float(%s)' % d[0].s.strip().lower(), RealS), 'float'), st)]
         if name == 'float':
             a = d[0]
             if isinstance(a, Sc) and a.py in ('int', 'float', 'bool'): return [(Sc(self.as_real(a), 'float'), st)]
@@ -1698,6 +1774,13 @@ class CallMixin(object):
             if isinstance(a, (Tup, PyList)):
                 return [(st.new_cell(PyList(self.sort_network(a.items, st))), st)]
             raise Unsupported('sorted(%r)' % (a,))
+        if name == 'getattr' and len(d) == 3 and isinstance(d[0], Obj) and isinstance(d[1], PyStr) and isinstance(d[2], NoneV):
+            o = d[0]; fty = self.reg.field_type(o.cls, d[1].s)
+            if fty is not None and fty.kind == 'Opt' and d[1].s in getattr(self.reg.classes.get(o.cls), 'optional_attrs', ()):
+                return [(self.read_field(o, d[1].s, fty, st), st)]       # None exactly when the instance lacks the attribute
+            raise Unsupported('getattr(%r, %r, None)' % (o, d[1].s))
+        if name == 'hasattr' and isinstance(d[0], Obj) and isinstance(d[1], PyStr) and d[1].s in getattr(self.reg.classes.get(d[0].cls), 'optional_attrs', ()):
+            return [(Sc(z3.Not(self.read_field(d[0], d[1].s, self.reg.field_type(d[0].cls, d[1].s), st).isnone), 'bool'), st)]
         if name == 'hasattr':
             o, nm = d
             if isinstance(o, FnV) and isinstance(nm, PyStr) and nm.s in ('deriv', 'deriv2'):
@@ -1847,6 +1930,28 @@ class CallMixin(object):
                     return outs_
             if name == 'keys': return [(Tup([PyStr(k) for k in r.d]), st)]
             if name == 'copy': return [(st.new_cell(PyDict(r.d)), st)]
+        if isinstance(r, Obj) and name == '_replace' and getattr(self.reg.classes.get(r.cls), 'namedtuple', False) and not args:
+            # collections.namedtuple._replace(**kw): a new tuple, the named fields replaced, every other field as before
+            decl = self.reg.classes[r.cls]
+            o2 = Obj(fresh(ObjSort(r.cls), r.cls.lower() + '_repl'), r.cls)
+            for fname, fty in decl.fields.items():
+                if fname in kw:
+                    nv = self.deref(kw[fname], st)
+                    if fty.kind == 'Opt':
+                        inner = fty.args[0]
+                        if isinstance(nv, NoneV): st.pc.append(field(r.cls, fname + '?none', BoolS)(o2.z))
+                        elif isinstance(nv, Opt): st.pc += [field(r.cls, fname + '?none', BoolS)(o2.z) == nv.isnone, field(r.cls, fname, inner.sort())(o2.z) == unwrap(nv.val)]
+                        else: st.pc += [z3.Not(field(r.cls, fname + '?none', BoolS)(o2.z)), field(r.cls, fname, inner.sort())(o2.z) == unwrap(self.deref(self.coerce(kw[fname], inner, st, fname), st))]
+                    else:
+                        st.pc.append(field(r.cls, fname, fty.sort())(o2.z) == unwrap(self.deref(self.coerce(kw[fname], fty, st, fname), st)))
+                else:
+                    if fty.kind == 'Opt':
+                        inner = fty.args[0]
+                        st.pc += [field(r.cls, fname + '?none', BoolS)(o2.z) == field(r.cls, fname + '?none', BoolS)(r.z), field(r.cls, fname, inner.sort())(o2.z) == field(r.cls, fname, inner.sort())(r.z)]
+                    else: st.pc.append(field(r.cls, fname, fty.sort())(o2.z) == field(r.cls, fname, fty.sort())(r.z))
+            unknown = [k_ for k_ in kw if k_ not in decl.fields]
+            if unknown: raise Unsupported('_replace of undeclared field %s' % unknown)
+            return [(o2, st)]
         if isinstance(r, Obj) and getattr(self.reg.classes.get(r.cls), 'external', False):
             c = self.reg.get('<ext>', '%s.%s' % (r.cls, name))
             if c is None: raise Unsupported('external method %s.%s has no assumed contract' % (r.cls, name))
@@ -2010,7 +2115,7 @@ class CallMixin(object):
             fty = self.reg.field_type(rec.cls, nm)
             if fty is None: raise Unsupported('field %s.%s not declared in the sidecar' % (rec.cls, nm))
             vd = self.deref(v, st)
-            if fty.kind == 'Fn': st.pc.append(field(rec.cls, nm, Fn)(o) == self.as_fn(vd, st))
+            if fty.kind == 'Fn': st.pc.append(field(rec.cls, nm, Fn)(o) == self.as_fn(v, st))
             elif fty.kind == 'Opt': raise Unsupported('optional field in record conversion')
             elif fty.kind == 'FnOrDict':
                 if isinstance(vd, SymDict):
@@ -2111,9 +2216,34 @@ class CallMixin(object):
             inner = ty.args[0]
             if isinstance(d, NoneV): return Opt(z3.BoolVal(True), wrap(inner, fresh(inner.sort(), nm + '_none')))
             return Opt(z3.BoolVal(False), self.coerce(v, inner, st, nm))
+        if k == 'Comb' and isinstance(d, FuncV): return Sc(comb_const(d.fi.file, d.fi.qualname), 'comb')
         if k == 'Real' and isinstance(d, Sc) and d.py in ('int', 'bool'): return Sc(self.as_real(d), 'float')
         if k == 'Fn' and not isinstance(d, FnV): return FnV(self.as_fn(d, st))
         if k == 'Obj' and isinstance(d, Rec): return self.rec_to_obj(d, st)
+        if k == 'Obj' and isinstance(d, NTup) and self.reg.classes.get(ty.args[0]) is not None:
+            # a namedtuple built here, seen through its sidecar class: field by field
+            decl = self.reg.classes[ty.args[0]]
+            o = Obj(fresh(ObjSort(decl.name), decl.name.lower()), decl.name)
+            for fname, item in zip(d.cls.fields, d.items):
+                fty = decl.fields.get(fname)
+                if fty is None: raise Unsupported('namedtuple field %s not declared for %s' % (fname, decl.name))
+                if fty.kind == 'Opt': raise Unsupported('optional field of a namedtuple built in the function')
+                st.pc.append(field(decl.name, fname, fty.sort())(o.z) == unwrap(self.deref(self.coerce(item, fty, st, fname), st)))
+            return o
+        if k == 'Obj' and isinstance(d, Obj) and d.cls != ty.args[0] and getattr(self.reg.classes.get(ty.args[0]), 'view_of', None) == d.cls:
+            # the same Python object seen through a narrower sidecar class: its fields must be present (obligation) and are equal
+            tdecl = self.reg.classes[ty.args[0]]; sdecl = self.reg.classes[d.cls]
+            o = Obj(fresh(ObjSort(tdecl.name), tdecl.name.lower()), tdecl.name)
+            for fname, fty in tdecl.fields.items():
+                sty = sdecl.fields.get(fname)
+                if sty is None: raise Unsupported('view field %s.%s missing in %s' % (tdecl.name, fname, sdecl.name))
+                if sty.kind == 'Opt' and fty.kind != 'Opt':
+                    self.obl('view-has/%s.%s' % (tdecl.name, fname), st, z3.Not(field(d.cls, fname + '?none', BoolS)(d.z)))
+                    st.pc.append(field(tdecl.name, fname, fty.sort())(o.z) == field(d.cls, fname, fty.sort())(d.z))
+                elif sty.kind == fty.kind and fty.kind != 'Opt':
+                    st.pc.append(field(tdecl.name, fname, fty.sort())(o.z) == field(d.cls, fname, fty.sort())(d.z))
+                else: raise Unsupported('view field %s.%s of incompatible type' % (tdecl.name, fname))
+            return o
         if k == 'Obj' and isinstance(d, Obj) and d.cls != ty.args[0]:
             base = ty.args[0]
             chain, c = [], d.cls
@@ -2149,6 +2279,15 @@ class CallMixin(object):
                 self.reg.assume('A4: bisect.bisect_left on the x components (uninterpreted index function characterised by the bisect axioms in the precondition)')
                 return [(Sc(BIS(a.xproxy_of, self.as_real(self.deref(args[1], st))), 'int'), st)]
             raise Unsupported('bisect_left over %r' % (a,))
+        if mod == 'functools' and name == 'reduce' and len(args) == 2:
+            f_ = self.deref(args[0], st); xs = self.deref(args[1], st)
+            if isinstance(f_, FuncV): f_ = Sc(comb_const(f_.fi.file, f_.fi.qualname), 'comb')
+            if not (isinstance(f_, Sc) and f_.py == 'comb' and isinstance(xs, SeqV) and xs.elem.kind == 'Fn'):
+                raise Unsupported('functools.reduce(%r, %r)' % (f_, xs))
+            self.reg.assume('A4: functools.reduce(c, [f0..fn-1]) is the left fold c(..c(c(f0, f1), f2).., fn-1); TypeError for an empty list')
+            s_e = st.copy(); s_e.pc.append(z3.Length(xs.z) == 0); self.raise_exc('TypeError', s_e)
+            st.pc.append(z3.Length(xs.z) >= 1)
+            return [(FnV(reduce_fn(f_.z, xs.z, z3.Length(xs.z) - 1)), st)]
         if mod == 'math' and name == 'sqrt':
             a = self.deref(args[0], st)
             if not isinstance(a, Sc): raise Unsupported('math.sqrt(%r)' % (a,))
@@ -2217,6 +2356,9 @@ def py_literal(pv, ty):
 
 split_on = z3.Function('split_on', StrS, StrS, z3.SeqSort(StrS))
 sqrt_fn = z3.Function('sqrt', RealS, RealS)
+from .spec import SpecAcc as _SpecAcc
+# reduce_fn(c, fs, t): the left fold of the first t+1 callables of fs with the combinator c
+reduce_fn = _SpecAcc('reduce_left', [CombS, z3.SeqSort(Fn)], lambda c, fs: fs[0], lambda c, fs, t, prev: comb2(c, prev, fs[t + 1]), result=Fn)
 split_ws = z3.Function('split_ws', StrS, z3.SeqSort(StrS)); strip_ws = z3.Function('strip_ws', StrS, StrS)
 parses_int = z3.Function('parses_int', StrS, BoolS); parses_float = z3.Function('parses_float', StrS, BoolS)
 str_to_int = z3.Function('str_to_int', StrS, IntS); str_to_real = z3.Function('str_to_real', StrS, RealS)
@@ -2344,7 +2486,8 @@ class Executor(Exec, ExprMixin, StmtMixin, CallMixin):
                 if c.raises_when is not None:
                     ns = NS(self, o.state, frame=o.state.frames[0])
                     for i, g in enumerate(c.raises_when(ns, self.old_ns, o.value)):
-                        self.obl('raises/%s' % o.value.cls, o.state, g, carries='raises' in c.carries)
+                        ob_ = self.obl('raises/%s' % o.value.cls, o.state, g, carries='raises' in c.carries)
+                        if getattr(o.value, 'lineno', None): ob_.where = '%s (exception raised at line %d of the function as extracted)' % (ob_.where, o.value.lineno)
             else:
                 raise Unsupported('loop control leaving function')
         self.n_paths = len(outs)
